@@ -2,6 +2,7 @@ import AasVerif.Lemmas.PyEmit
 import AasVerif.Lemmas.PyParen
 import AasVerif.Lemmas.PyParseSem
 import AasVerif.Lemmas.PyTrace
+import AasVerif.Lemmas.InferSimple
 import AasVerif.Lemmas.PyRules
 import AasVerif.Lemmas.SdkVerify
 import AasVerif.Lemmas.SdkExact
@@ -80,7 +81,7 @@ theorem emit_invariant_parens_justified_partial (cfg : Cfg) (e : Expr) (x : PyEx
 
 /-- Non-vacuity: `not (self.a < 3) or self.b` meets the hypotheses and is transpiled. -/
 example :
-    let self := Expr.name selfName
+    let self := Expr.name PyEmit.selfName
     let e : Expr := .impl (.cmp (.member self [97]) .lt (.const (.int 3))) (.member self [98])
     simple e = true ∧ noNan e = true ∧
       transpile cfg0 [] e = .ok (.boolop false
@@ -94,40 +95,40 @@ example :
 token with CPython's `tokenize` of the real transpiler output on every run), `parse` reads a
 token sequence along Python's expression grammar (`disjunction → conjunction → inversion →
 comparison → sum → factor → primary → atom`, comparison chains and `not in` recognised as such
-and reported `outside`; compared with CPython's `ast.parse` on every run), `strip x` is the
+and reported `outside`; compared with CPython's `ast.parse` on every run), `PyEmit.strip x` is the
 tree without `paren` nodes.
 
-Full statement (false): `transpile cfg vs e = .ok x → parse (print x) = .ok (strip x) []`. -/
+Full statement (false): `transpile cfg vs e = .ok x → parse (print x) = .ok (PyEmit.strip x) []`. -/
 
 /-- Negation witness: the text emitted for `(-5)[0]` is `-5[0]`, which Python's grammar reads as
 `-(5[0])`. -/
 theorem emit_roundtrip_full_fails :
     ¬ (∀ (cfg : Cfg) (vs : List Text) (e : Expr) (x : PyExpr),
-        transpile cfg vs e = .ok x → parse (print x) = .ok (strip x) []) := by
+        transpile cfg vs e = .ok x → parse (print x) = .ok (PyEmit.strip x) []) := by
   intro h
   have h1 := h cfg0 [] (.index (.const (.int (-5))) (.const (.int 0)))
     (.subscript (.neg (.int 5)) (.int 0)) rfl
   have h2 : parse (print (.subscript (.neg (.int 5)) (.int 0))) =
       .ok (.neg (.subscript (.int 5) (.int 0))) [] := rfl
   rw [h2] at h1
-  simp [strip] at h1
+  simp [PyEmit.strip] at h1
 
 /-- **reader_roundtrip.** Whenever every omitted parenthesis is justified by the precedence
 table (`parenOK`), Python's grammar reads the printed token sequence as exactly the expression
 printed — for every `PyExpr`, transpiler output or not. -/
-theorem reader_roundtrip (x : PyExpr) (h : parenOK x = true) : parse (print x) = .ok (strip x) [] :=
+theorem reader_roundtrip (x : PyExpr) (h : parenOK x = true) : parse (print x) = .ok (PyEmit.strip x) [] :=
   parse_print x h
 
 /-- **emit_roundtrip (partial).** The text the transpiler emits is read by Python's grammar as
 the tree the transpiler meant (same hypothesis as `emit_parens_justified_partial`: member
 instances are primaries, no index access on a constant). -/
 theorem emit_roundtrip_partial (cfg : Cfg) (vs : List Text) (e : Expr) (x : PyExpr)
-    (hs : simple e = true) (h : transpile cfg vs e = .ok x) : parse (print x) = .ok (strip x) [] :=
+    (hs : simple e = true) (h : transpile cfg vs e = .ok x) : parse (print x) = .ok (PyEmit.strip x) [] :=
   parse_print x (good cfg e vs x hs h).ok
 
 /-- … and the whole `if not <expr>:` condition. -/
 theorem emit_invariant_roundtrip_partial (cfg : Cfg) (e : Expr) (x : PyExpr)
-    (hs : simple e = true) (h : transpileInvariant cfg e = .ok x) : parse (print x) = .ok (strip x) [] :=
+    (hs : simple e = true) (h : transpileInvariant cfg e = .ok x) : parse (print x) = .ok (PyEmit.strip x) [] :=
   parse_print x (emit_invariant_parens_justified_partial cfg e x hs h)
 
 /-- **emit_text_preserves (partial).** Semantic form: the meaning Python gives to the emitted
@@ -162,7 +163,7 @@ theorem reader_chain_and_not :
 
 /-- Non-vacuity: the example invariant above is transpiled to text that is read back. -/
 example :
-    let self := Expr.name selfName
+    let self := Expr.name PyEmit.selfName
     let e : Expr := .impl (.cmp (.member self [97]) .lt (.const (.int 3))) (.member self [98])
     ∃ x, transpile cfg0 [] e = .ok x ∧ simple e = true ∧
       print x = [.kwNot, .lpar, .that, .dot, .attrName .prop [97], .cmp .lt, .int 3, .rpar, .kwOr,
@@ -170,6 +171,63 @@ example :
       parse (print x) = .ok (.boolop false
         [.not (.compare (.attr .that .prop [97]) (.cmp .lt) (.int 3)), .attr .that .prop [98]]) [] :=
   ⟨_, rfl, by decide, rfl, rfl⟩
+
+/-! ## (b) transpiler: every expression the type inference accepts
+
+`_transpile_invariant` (and the transpilation of verification functions) runs the type inference
+first and transpiles only what it accepted.  `infer` (`Model/Expr/Infer.lean`, the model of
+`type_inference._Inferrer` of C07) only gives a class / enumeration / list type to names,
+member and index accesses and calls, so what it accepts is `simple`: the `_partial`
+hypotheses above hold for **all** accepted expressions. -/
+
+/-- What the type inference accepts meets the hypothesis of the parenthesis theorems. -/
+theorem accepted_is_simple (Γ : TEnv) (e : Expr) (τ : Ty) (hty : inferC Γ e = .ok τ) : simple e = true :=
+  infer_simple e Γ [] τ hty
+
+/-- **emit_parens_justified.** For every expression the type inference accepts, the transpiler
+omits parentheses only where Python's precedence table allows it. -/
+theorem emit_parens_justified (Γ : TEnv) (e : Expr) (τ : Ty) (hty : inferC Γ e = .ok τ)
+    (cfg : Cfg) (vs : List Text) (x : PyExpr) (h : transpile cfg vs e = .ok x) : parenOK x = true :=
+  emit_parens_justified_partial cfg vs e x (accepted_is_simple Γ e τ hty) h
+
+/-- **emit_roundtrip.** For every expression the type inference accepts, Python's grammar reads
+the emitted text as the tree the transpiler meant. -/
+theorem emit_roundtrip (Γ : TEnv) (e : Expr) (τ : Ty) (hty : inferC Γ e = .ok τ)
+    (cfg : Cfg) (vs : List Text) (x : PyExpr) (h : transpile cfg vs e = .ok x) :
+    parse (print x) = .ok (PyEmit.strip x) [] :=
+  emit_roundtrip_partial cfg vs e x (accepted_is_simple Γ e τ hty) h
+
+/-- … and the whole `if not <expr>:` condition of an invariant. -/
+theorem emit_invariant_roundtrip (Γ : TEnv) (e : Expr) (τ : Ty) (hty : inferC Γ e = .ok τ)
+    (cfg : Cfg) (x : PyExpr) (h : transpileInvariant cfg e = .ok x) :
+    parse (print x) = .ok (PyEmit.strip x) [] :=
+  emit_invariant_roundtrip_partial cfg e x (accepted_is_simple Γ e τ hty) h
+
+/-- **emit_text_preserves.** For every accepted expression, the meaning Python gives to the emitted
+*text* is the meaning of the source expression, in every environment — value or exception. -/
+theorem emit_text_preserves (Γ : TEnv) (e : Expr) (τ : Ty) (hty : inferC Γ e = .ok τ)
+    (cfg : Cfg) (vs : List Text) (x : PyExpr) (hfloat : noNan e = true) (h : transpile cfg vs e = .ok x) (ρ : Env) :
+    evalToks ρ (print x) = some (Expr.eval ρ e) :=
+  emit_text_preserves_partial cfg vs e x (accepted_is_simple Γ e τ hty) hfloat h ρ
+
+/-- … and of the emitted `if` condition: true exactly when the invariant is falsy, raising what it raises. -/
+theorem emit_invariant_text_preserves (Γ : TEnv) (e : Expr) (τ : Ty) (hty : inferC Γ e = .ok τ)
+    (cfg : Cfg) (x : PyExpr) (hfloat : noNan e = true) (h : transpileInvariant cfg e = .ok x) (ρ : Env) :
+    evalToks ρ (print x) =
+      some (match Expr.eval ρ e with
+       | .val v => .val (.bool (!v.truthy ρ.fops))
+       | err => err) :=
+  emit_invariant_text_preserves_partial cfg e x (accepted_is_simple Γ e τ hty) hfloat h ρ
+
+/-- Non-vacuity: `not (self.a < 3) or self.b` is accepted by the inference for a class with an
+`int` property `a` and a `bool` property `b`, and is transpiled. -/
+example :
+    let D : Decls := ⟨[([67], .cls ⟨[([97], .prim .int), ([98], .prim .bool)], [], []⟩)], [], []⟩
+    let self := Expr.name PyEmit.selfName
+    let e : Expr := .impl (.cmp (.member self [97]) .lt (.const (.int 3))) (.member self [98])
+    inferC (TEnv.forSelf D [67]) e = .ok .bool ∧ noNan e = true ∧ ∃ x, transpile cfg0 [] e = .ok x := by
+  intro D self e
+  exact ⟨by decide, by decide, _, rfl⟩
 
 /-! ## (b) transpiler: evaluation order
 
@@ -209,11 +267,12 @@ theorem order_is_observable :
     let ρ := env [([97], .none), ([98], .none)]
     let ρ' := env [([97], .inst 0 [67] [([120], .bool true)]), ([98], .none)]
     Expr.eval ρ e1 = Expr.eval ρ e2 ∧ Expr.trace ρ e1 ≠ Expr.trace ρ e2 ∧
-      Expr.trace ρ' e1 = [.load [97], .getattr (.inst 0 [67] [([120], .bool true)]) [120]] := by
+      Expr.trace ρ' e1 = [.load [97] (.val (.inst 0 [67] [([120], .bool true)])),
+        .getattr (.inst 0 [67] [([120], .bool true)]) [120]] := by
   intro e1 e2 env ρ ρ'
   refine ⟨rfl, ?_, rfl⟩
-  have h1 : Expr.trace ρ e1 = [.load [97], .getattr .none [120]] := rfl
-  have h2 : Expr.trace ρ e2 = [.load [98], .getattr .none [120]] := rfl
+  have h1 : Expr.trace ρ e1 = [.load [97] (.val .none), .getattr .none [120]] := rfl
+  have h2 : Expr.trace ρ e2 = [.load [98] (.val .none), .getattr .none [120]] := rfl
   rw [h1, h2]
   simp
 
